@@ -67,13 +67,13 @@ pub fn eval_case(c: &Case, allowed: &features::Allowed, fd: i32) -> Outcome {
     let lt = match guarded(|| lower(&c.ty)) {
         Caught::Ok(l) => l,
         Caught::Panic(_, s) => {
-            return Outcome { verdict: Some((format!("harness:lower:{s}"), "type lowering panicked".into())), classes, evaluations: 0, nontrivial: false };
+            return Outcome { verdicts: vec![(format!("harness:lower:{s}"), "type lowering panicked".into())], classes, evaluations: 0, nontrivial: false };
         }
     };
-    let mut verdict: Option<(String, String)> = None;
-    let mut set = |v: &mut Option<(String, String)>, sig: String, what: String| {
-        if v.is_none() {
-            *v = Some((sig, what));
+    let mut verdict: Vec<(String, String)> = vec![];
+    let set = |v: &mut Vec<(String, String)>, sig: String, what: String| {
+        if !v.iter().any(|(s, _)| *s == sig) {
+            v.push((sig, what));
         }
     };
     for (vi, val) in c.vals.iter().enumerate() {
@@ -104,7 +104,11 @@ pub fn eval_case(c: &Case, allowed: &features::Allowed, fd: i32) -> Outcome {
             let bytes = match dust_serialize(&data, enc) {
                 Caught::Panic(in_dust, s) => {
                     if in_dust {
-                        set(&mut verdict, format!("C09:panic:{s}"), format!("serialize ({}) of a valid value panicked: {s}; type {}", enc.name(), describe(&c.ty)));
+                        let sig = match &shape {
+                            Some(sh) => format!("C09:roundtrip:{}:{sh}", enc.vname()),
+                            None => format!("C09:panic:{s}"),
+                        };
+                        set(&mut verdict, sig, format!("serialize ({}) of a valid value panicked: {s}; type {}", enc.name(), describe(&c.ty)));
                     } else {
                         set(&mut verdict, format!("harness:panic:{s}"), "panic outside dust-dds".into());
                     }
@@ -125,7 +129,12 @@ pub fn eval_case(c: &Case, allowed: &features::Allowed, fd: i32) -> Outcome {
             match dust_deserialize(lt.dt, &bytes) {
                 Caught::Panic(in_dust, s) => {
                     if in_dust {
-                        set(&mut verdict, format!("C09:panic:{s}"), format!("deserialize ({}) of dust-dds's own output panicked: {s}; type {}; bytes {}", enc.name(), describe(&c.ty), hex(&bytes)));
+                        // a panic while decoding a stream that a known finding mis-frames belongs to that finding
+                        let sig = match &shape {
+                            Some(sh) => format!("C09:roundtrip:{}:{sh}", enc.vname()),
+                            None => format!("C09:panic:{s}"),
+                        };
+                        set(&mut verdict, sig, format!("deserialize ({}) of dust-dds's own output panicked: {s}; type {}; bytes {}", enc.name(), describe(&c.ty), hex(&bytes)));
                     } else {
                         set(&mut verdict, format!("harness:panic:{s}"), "panic outside dust-dds".into());
                     }
@@ -171,6 +180,7 @@ pub fn eval_case(c: &Case, allowed: &features::Allowed, fd: i32) -> Outcome {
             } else if bytes.len() >= 4 && !c.ty.any(&|t| matches!(t, Ty::WStr(_))) {
                 // the unpadded length comes from the independent decoder: where the value ends
                 match rxcdr::decode_end(&c.ty, &bytes, enc.ver, enc.be) {
+                    Ok((v2, _, _)) if &v2 != val => classes.push("padding-unchecked(reference decoder reads a different value)".into()),
                     Ok((_, end, _)) => {
                         let pad = bytes.len() as i64 - end as i64;
                         let announced = (bytes[3] & 3) as i64;
@@ -193,7 +203,7 @@ pub fn eval_case(c: &Case, allowed: &features::Allowed, fd: i32) -> Outcome {
             }
         }
     }
-    Outcome { verdict, classes, evaluations: evals, nontrivial: nontrivial_type(&c.ty) }
+    Outcome { verdicts: verdict, classes, evaluations: evals, nontrivial: nontrivial_type(&c.ty) }
 }
 
 pub fn describe(ty: &Ty) -> String {
@@ -262,12 +272,48 @@ pub fn main(ctx: &Ctx) -> ! {
         CampaignCfg { stream: "c09", cases: ctx.pick(6_000, 400_000), batch: 128, max_shrink: ctx.pick(1500, 4000) },
         &strat,
         &mut report,
-        // 70 % of the cases avoid every shape with a confirmed finding so that the rest of the
-        // space is explored at full power; 30 % are unrestricted
-        &|(g, mode)| realize(g, &vc, &allowed, mode % 10 < 7),
+        // 85 % of the cases avoid every shape with a confirmed finding so that the rest of the
+        // space is explored at full power; 15 % are unrestricted
+        &|(g, mode)| realize(g, &vc, &allowed, mode % 20 < 17),
         &|c, fd| eval_case(c, &allowed, fd),
         &|c, d| on_death(c, d, &allowed),
         &|c| json!({"type": generic_shape(&c.ty), "values": c.vals.len()}),
     );
     vcore::finish(ctx, meta, report)
+}
+
+/// development aid: print what each side does with a case
+pub fn probe(c: &Case) {
+    let lt = lower(&c.ty);
+    for val in &c.vals {
+        println!("value {}", short(val));
+        let data = lower_data(&c.ty, &lt, val);
+        for enc in ALL_ENC {
+            let feats = features::scan(&c.ty, val, enc);
+            println!(" {} features {:?}", enc.name(), feats.iter().map(|f| f.name()).collect::<Vec<_>>());
+            match dust_serialize(&data, enc) {
+                Caught::Ok(Ok(b)) => {
+                    println!("   dust : {}", hex(&b));
+                    match rxcdr::encode(&c.ty, val, enc, rxcdr::Policy::SPEC) {
+                        Ok((r, _)) => println!("   spec : {}{}", hex(&r), if r == b { "  (equal)" } else { "" }),
+                        Err(e) => println!("   spec : error {}", e.0),
+                    }
+                    match rxcdr::decode(&c.ty, &b, Some(enc)) {
+                        Ok((v2, _)) => println!("   R-XCDR decode of dust bytes: {}", if &v2 == val { "same value".to_string() } else { format!("DIFFERENT {:?}", diff(&c.ty, val, &v2)) }),
+                        Err(e) => println!("   R-XCDR decode of dust bytes: error {} [{}]", e.what, e.clause),
+                    }
+                    match dust_deserialize(lt.dt, &b) {
+                        Caught::Ok(Ok(d2)) => match read_data(&c.ty, &d2) {
+                            Ok(back) => println!("   dust roundtrip: {}", match diff(&c.ty, val, &back) { None => "ok".to_string(), Some(p) => format!("DIFF at {p}") }),
+                            Err(e) => println!("   dust roundtrip: malformed data {e}"),
+                        },
+                        Caught::Ok(Err(e)) => println!("   dust roundtrip: error {e}"),
+                        Caught::Panic(_, s) => println!("   dust roundtrip: panic {s}"),
+                    }
+                }
+                Caught::Ok(Err(e)) => println!("   dust serialize error {e}"),
+                Caught::Panic(_, s) => println!("   dust serialize panic {s}"),
+            }
+        }
+    }
 }
